@@ -49,7 +49,7 @@ def spec(tier):
 
 
 BUILTIN_NAMES = ["center", "Treatment", "C", "I", "scale", "Sum"]
-PLAIN_NAMES = ["zq", "value_1", "Xcol"]
+PLAIN_NAMES = ["zq", "abs", "value_1", "id", "Xcol"]  # incl. names of PYTHON builtins: those are not a scope
 
 
 def builtin_object(name):
@@ -126,7 +126,7 @@ def configs(tier):
     """(role, name, is_builtin, subset, env)"""
     out = []
     names_b = BUILTIN_NAMES[:2] if tier == "quick" else BUILTIN_NAMES
-    names_p = PLAIN_NAMES[:1] if tier == "quick" else PLAIN_NAMES
+    names_p = PLAIN_NAMES[:2] if tier == "quick" else PLAIN_NAMES
     subsets = [tuple(s for s, bit in zip(SCOPES, bits) if bit) for bits in itertools.product([0, 1], repeat=4)]
     for env in range(4):
         for sub in subsets:
